@@ -549,8 +549,8 @@ Section TxnCodec.
     | POAppend fs => obind (omap frag_of_pb fs) (fun fs' => Ok (OpAppend fs'))
     | PODelete u d pr => obind (omap frag_of_pb u) (fun u' => Ok (OpDelete u' d pr))
     | POOverwrite fs sc _ cfg bases =>
-        (* `if config_upsert_values.is_empty() { Some(config_upsert_values) } else { None }` - sic *)
-        let cfg' := if is_nil cfg then Some cfg else None in
+        (* `if config_upsert_values.is_empty() { None } else { Some(config_upsert_values) }` (repaired in cb06601) *)
+        let cfg' := if is_nil cfg then None else Some cfg in
         obind (omap frag_of_pb fs) (fun fs' =>
         Ok (OpOverwrite fs' (mk_schema sc []) cfg'
                         (if is_nil bases then None else Some (map bp_of_pb bases))))
@@ -729,7 +729,7 @@ Definition wf_op (o : operation) : bool :=
   | OpDelete u _ _ => forallb wf_frag u
   | OpOverwrite fs sc cfg bases =>
       forallb wf_frag fs && wf_schema_txn sc
-      && match cfg with Some [] => true | _ => false end       (* only Some({}) survives - see Known classes *)
+      && match cfg with Some [] => false | _ => true end       (* Some({}) is written like None *)
       && match bases with Some [] => false | _ => true end
   | OpCreateIndex n r => forallb wf_idx n && forallb wf_idx r
   | OpRewrite groups ri fri => forallb wf_rg groups && forallb wf_ri ri && negb (is_nil groups) && negb (is_some fri)
@@ -749,8 +749,6 @@ Definition wf_txn (t : transaction) : bool :=
   && match tx_properties t with Some [] => false | _ => true end.
 
 (* the individual known classes on transactions (each is a sub-case of ~wf_txn) *)
-Definition Known_C32_overwrite_config_upsert_dropped (t : transaction) : bool :=
-  match tx_operation t with OpOverwrite _ _ (Some (_ :: _)) _ => true | _ => false end.
 Definition Known_C32_rewrite_frag_reuse_index_dropped (t : transaction) : bool :=
   match tx_operation t with OpRewrite _ _ (Some _) => true | _ => false end.
 Definition Known_C32_txn_schema_metadata_dropped (t : transaction) : bool :=
@@ -766,7 +764,7 @@ Definition Known_C32_default_conflated_txn (t : transaction) : bool :=
      | OpAppend fs => existsb dc_frag fs
      | OpDelete u _ _ => existsb dc_frag u
      | OpOverwrite fs _ cfg bases =>
-         existsb dc_frag fs || match cfg with None => true | _ => false end
+         existsb dc_frag fs || match cfg with Some [] => true | _ => false end
          || match bases with Some [] => true | _ => false end
      | OpRewrite groups _ _ => is_nil groups || existsb (fun g => existsb dc_frag (fst g) || existsb dc_frag (snd g)) groups
      | OpMerge fs _ => existsb dc_frag fs
@@ -949,8 +947,8 @@ Definition chk_txn_to := chk_to (txn_to_pb toy_ser) (txn_of_pb toy_de) transacti
 Definition chk_txn_of := chk_of (txn_of_pb toy_de) transaction_eq_dec.
 
 (* wf / Known classes as seen by the harness (its own classification of a generated value):
-   0 = well-formed, otherwise a bit set of classes: 1 default_conflated, 2 overwrite_config_upsert_dropped,
-   4 rewrite_frag_reuse_index_dropped, 8 txn_schema_metadata_dropped, 16 index_created_at_submilli *)
+   0 = well-formed, otherwise a bit set of classes: 1 default_conflated, (2 was overwrite_config_upsert_dropped,
+   repaired in /repo cb06601), 4 rewrite_frag_reuse_index_dropped, 8 txn_schema_metadata_dropped, 16 index_created_at_submilli *)
 Definition b2n (b : bool) (v : N) : N := if b then v else 0.
 Definition txn_idx_submilli (t : transaction) : bool :=
   match tx_operation t with
@@ -958,7 +956,7 @@ Definition txn_idx_submilli (t : transaction) : bool :=
   | _ => false
   end.
 Definition txn_classes (t : transaction) : N :=
-  b2n (Known_C32_default_conflated_txn t) 1 + b2n (Known_C32_overwrite_config_upsert_dropped t) 2
+  b2n (Known_C32_default_conflated_txn t) 1
   + b2n (Known_C32_rewrite_frag_reuse_index_dropped t) 4 + b2n (Known_C32_txn_schema_metadata_dropped t) 8
   + b2n (txn_idx_submilli t) 16.
 Definition chk_txn_class (t : transaction) (cls : N) : bool := txn_classes t =? cls.
